@@ -126,6 +126,24 @@ def r71_sources(ctx):
                 f = unparse(x.func)
                 if f in ('hash', 'id') and isinstance(x.func, ast.Name):
                     counts['hash/id'] += 1
+                    # uses in which only the EQUALITY of the numbers matters, never their values or their order:
+                    #   hash(..) returned by a __hash__ method (the protocol: dict / set lookups of this object);
+                    #   id(..) as the key of a lookup (subscript / get / pop / in) in a dict -- an identity index;
+                    #   id(..) / hash(..) inside the text of a message (f-string, % / format argument)
+                    p_ = pm.get(id(x))
+                    harmless = None
+                    if f == 'hash' and fn.name == '__hash__' and isinstance(p_, ast.Return):
+                        harmless = 'the value a __hash__ method returns (hash protocol)'
+                    elif f == 'id' and ((isinstance(p_, ast.Subscript) and p_.slice is x) or (isinstance(p_, ast.Call) and isinstance(p_.func, ast.Attribute)
+                                        and p_.func.attr in ('get', 'pop', 'setdefault') and p_.args and p_.args[0] is x)
+                                        or (isinstance(p_, ast.Compare) and p_.left is x and all(isinstance(o, (ast.In, ast.NotIn)) for o in p_.ops))
+                                        or (isinstance(p_, ast.Dict) and any(k is x for k in p_.keys))):
+                        harmless = 'a lookup key (identity index): only equality of ids matters'
+                    elif isinstance(p_, ast.FormattedValue) or (isinstance(p_, ast.Call) and unparse(p_.func) in ('hex', 'str', 'repr') and isinstance(pm.get(id(p_)), ast.FormattedValue)):
+                        harmless = 'part of a message text'
+                    if harmless:
+                        ctx.ob('R7.1', f'{where_}:{f}', True, sample=f'{where_}: {short(x)} is {harmless}')
+                        continue
                     ctx.ob('R7.1', f'{where_}:{f}', False)
                     ctx.finding('R7.1', f'{where_}:{f}', oc, x,
                                 f'`{short(x)}`: builtin {f}() varies from process to process ' + ('(string hashing is salted by PYTHONHASHSEED)' if f == 'hash' else '(object identity)')
